@@ -3,8 +3,8 @@ CONSTANTS
   MaxLen = 4
   MaxDepth = 3
   MaxChecks = 1
-  Programs = {"list_lit", "list_comp", "list_type", "tensor", "closure", "modifier", "plain"}
-  FirstOps = {"call:enable", "call:disable", "enter:enable", "enter:disable", "check:list_lit", "check:list_comp", "check:list_type", "check:tensor", "check:closure", "check:modifier", "check:plain"}
+  Programs = {"list_lit", "list_comp", "list_type", "tensor", "tensor_syn", "closure", "modifier", "plain"}
+  FirstOps = {"call:enable", "call:disable", "enter:enable", "enter:disable", "check:list_lit", "check:list_comp", "check:list_type", "check:tensor", "check:tensor_syn", "check:closure", "check:modifier", "check:plain"}
   EmitHist = TRUE
 INVARIANT TypeOK
 INVARIANT SavedIsPrevious
